@@ -27,7 +27,19 @@ GROUPS = {
         stubbing=True,
         harnesses=[dict(name="duration_read_total", kind="complete", timeout=500, quick=True),
                    dict(name="duration_roundtrip", kind="complete", timeout=1200),
+                   dict(name="duration_build_after_read_total", kind="complete", timeout=1200, quick=True),
                    dict(name="utc_read_total", kind="complete", timeout=500),
                    dict(name="socket_addr_roundtrip", kind="complete", timeout=1800, quick=True)],
+    ),
+    "mux_header": dict(
+        crate="zksync_consensus_network",
+        splice=[("components/network/src/mux/header.rs", "kani/mux_header.rs")],
+        harnesses=[dict(name="header_codec_bijection", kind="complete", timeout=900),
+                   dict(name="header_encode_decode", kind="complete", timeout=900)],
+    ),
+    "noise_buffer": dict(
+        crate="zksync_consensus_network",
+        splice=[("components/network/src/noise/bytes.rs", "kani/noise_buffer.rs")],
+        harnesses=[dict(name="buffer_ops_bounded", kind="bounded(capacity 6, 4 operations)", timeout=2400)],
     ),
 }
